@@ -34,6 +34,7 @@ pub fn io_msg(e: &std::io::Error) -> &'static str {
         ("failed to write whole buffer", "IWriteZero"),
         ("failed to fill whole buffer", "IFillBuffer"),
         ("injected", "IInjected"),
+        ("AES data ends before its authentication code", "IAesTruncated"),
     ];
     for (k, v) in table {
         if m.contains(k) {
